@@ -2728,7 +2728,11 @@ class Partitions(Expr):
 
     def _simplify_down(self):
         from dask_expr import SetIndexBlockwise
+        from dask_expr._indexing import LocBase
 
+        if isinstance(self.frame, LocBase) and not self.frame._partitions_aligned:
+            # output partition i is not made from partition i of the frame
+            return
         if isinstance(self.frame, Blockwise) and not isinstance(
             self.frame, (BlockwiseIO, Fused, SetIndexBlockwise)
         ):
